@@ -290,6 +290,12 @@ theorem C20_cached (w : World) (k : Kind) (o : Obj) :
     · subst hr; exact h3 hk
     · exact i3 r hr hk
 
+/-- …and the reuse does not depend on the file system any more: whatever the world has become (the file deleted,
+replaced, the directory gone), an access of a cached kind returns the cached object and loads nothing -/
+theorem C20_cached_any_world (w' : World) (s : State) (k : Kind) (o : Obj) (hc : s.cache k = some o) :
+    access w' s k = (s, .ok o) := by
+  simp [access, hc]
+
 /-! ### errors name the location -/
 
 /-- no candidate file: RuntimeError naming the (resolved) compose path; nothing is loaded or cached -/
